@@ -19,9 +19,12 @@
 EXTENDS Naturals, Sequences, FiniteSets, TLC
 
 CONSTANTS Fields, MaxEvents, Dev
-Kinds == {"plain", "bad", "slow", "badslow"}     \* does `bad` fail / does `slow` wait for its gate
-IsBad(k) == k \in {"bad", "badslow"}
+\* does the nullable child `bad` fail / does `slow` wait for its gate / does the non-null child `boom` fail
+\* (a failing non-null child fails the event as a whole: its response has no data)
+Kinds == {"plain", "bad", "slow", "badslow", "fatal", "badfatal"}
+IsBad(k) == k \in {"bad", "badslow", "badfatal"}
 IsSlow(k) == k \in {"slow", "badslow"}
+IsFatal(k) == k \in {"fatal", "badfatal"}
 
 VARIABLES q,       \* f -> sequence of arrived, not yet begun events [id, kind]
           cur,     \* f -> [id, kind, waiting] or NoEvent
@@ -31,7 +34,8 @@ VARIABLES q,       \* f -> sequence of arrived, not yet begun events [id, kind]
           out      \* yielded responses [f, id, errors]
 vars == <<q, cur, nextId, errs, own, out>>
 NoEvent == [id |-> 0, kind |-> "none", waiting |-> FALSE]
-E(f, id) == [f |-> f, id |-> id]
+E(f, id) == [f |-> f, id |-> id, w |-> "bad"]
+EF(f, id) == [f |-> f, id |-> id, w |-> "boom"]
 
 Init == /\ q = [f \in Fields |-> <<>>] /\ cur = [f \in Fields |-> NoEvent] /\ nextId = [f \in Fields |-> 0]
         /\ errs = <<>> /\ own = [f \in Fields |-> {}] /\ out = <<>>
@@ -51,8 +55,9 @@ Open(f) == /\ cur[f] # NoEvent /\ cur[f].waiting
            /\ cur' = [cur EXCEPT ![f].waiting = FALSE]
            /\ UNCHANGED <<q, nextId, errs, own, out>>
 Finish(f) == /\ cur[f] # NoEvent /\ ~cur[f].waiting
-             /\ LET reported == IF "SharedErrors" \in Dev THEN {errs[i] : i \in 1..Len(errs)} ELSE own[f] IN
-                out' = Append(out, [f |-> f, id |-> cur[f].id, errors |-> reported])
+             /\ LET captured == IF "SharedErrors" \in Dev THEN {errs[i] : i \in 1..Len(errs)} ELSE own[f]
+                    reported == captured \cup (IF IsFatal(cur[f].kind) THEN {EF(f, cur[f].id)} ELSE {})
+                IN out' = Append(out, [f |-> f, id |-> cur[f].id, errors |-> reported])
              /\ errs' = IF "SharedErrors" \in Dev THEN <<>> ELSE SelectSeq(errs, LAMBDA x : x \notin own[f])
              /\ cur' = [cur EXCEPT ![f] = NoEvent]
              /\ own' = [own EXCEPT ![f] = {}]
@@ -62,7 +67,7 @@ Spec == Init /\ [][Next]_vars /\ WF_vars(Next)
 
 \* ---- the property -----------------------------------------------------------------
 \* each response holds exactly the errors raised while resolving its own event
-OwnErrorsOnly == \A i \in 1..Len(out) : \A x \in out[i].errors : x = E(out[i].f, out[i].id)
+OwnErrorsOnly == \A i \in 1..Len(out) : \A x \in out[i].errors : x.f = out[i].f /\ x.id = out[i].id
 \* responses of one field come in event order, each event at most once
 InOrder == \A i, j \in 1..Len(out) : (i < j /\ out[i].f = out[j].f) => out[i].id < out[j].id
 \* (with the kind history one could also state "a failing event reports its error"; the trace monitor does)
